@@ -120,4 +120,5 @@ func genMore(outDir string) {
 	genGammMath(outDir)
 	genDet(outDir)
 	genLockup(outDir)
+	genExpr(outDir)
 }
